@@ -503,5 +503,5 @@ func clipKey(k string) string {
 }
 
 func TestC06(t *testing.T) {
-	drv.Main(t, drv.Driver{ID: "C06", Gen: gen06, Run: run06, CaseTimeout: 8 * time.Minute})
+	drv.Main(t, drv.Driver{ID: "C06", Gen: gen06, Run: run06, CaseTimeout: 30 * time.Minute})
 }
